@@ -134,7 +134,7 @@ func subParts(r *core.Rng, base []yang.Interval, mergeAdjacent bool) []yang.Inte
 	return out
 }
 
-var c13Patterns = []string{"[a-z]*", "[a-c]+", "a.*", ".*z", "[a-z0-9]{0,8}", "(ab|cd)*", "[^0-9]*"}
+var c13Patterns = []string{"[a-z]*", "[a-c]+", "a.*", ".*z", "[a-z0-9]{0,8}", "(ab|cd)*", "[^0-9]*", "(ab)|(cd)", "(a+)|(z+)", "a|cd"}
 // c13GapIndex: index i such that there is at least one value between parts i and i+1, or -1.
 func c13GapIndex(parts []yang.Interval) int {
 	for i := 0; i+1 < len(parts); i++ {
@@ -352,6 +352,13 @@ func c13Gen(seed int64, idx int) *c13Chain {
 				pt := core.Pick(r, c13Patterns)
 				L.patterns = append(L.patterns, pt)
 				pats = append(pats, pt)
+				if r.Chance(1, 3) {
+					// a second pattern statement at the same level: both must match
+					if pt2 := core.Pick(r, c13Patterns); pt2 != pt {
+						L.patterns = append(L.patterns, pt2)
+						pats = append(pats, pt2)
+					}
+				}
 			}
 		}
 		if defectHere && inject == "wrong-kind" {
